@@ -598,9 +598,28 @@ struct Exec
             }
             else
             {
-                for (auto& w : words_of(L))
-                    if (w.size() + 1 > 40)
+                // the word that crosses column 80, and every word after it on this line, must be one
+                // that cannot fit the 40-column text area (a breakable word would have been wrapped)
+                {
+                    bool crossing_ok = true, any_cross = false;
+                    size_t col = 0;
+                    while (col < L.size())
+                    {
+                        while (col < L.size() && L[col] == ' ')
+                            ++col;
+                        size_t start = col;
+                        while (col < L.size() && L[col] != ' ')
+                            ++col;
+                        if (col > start && col > 80 && start >= 40)
+                        {
+                            any_cross = true;
+                            if (col - start + 1 <= 40)
+                                crossing_ok = false;
+                        }
+                    }
+                    if (any_cross && crossing_ok)
                         excused = true;
+                }
                 // a head line longer than 80 columns consists of unbreakable pieces itself
                 for (size_t k = 0; k < order.size(); k++)
                     if (head_line[k] == i && head_of(*order[k]).size() > 80)
